@@ -41,7 +41,7 @@ Definition d_axis (D : itree) (a : axis) (n : nd) : stream :=
       if is_doc n then ([], Some (FCrash AttributeError))
       else match a with
            | AxAncestor => (ancestors D n, None)              (* iterate_ancestors, then _DocumentNode *)
-           | AxParent => (parent D n, None)                   (* the parent, or _DocumentNode for the root *)
+           | AxParent => (parent D n, None)                   (* `parent is not None`: the parent, else _DocumentNode *)
            | AxFollowingSibling => (following_siblings D n, None)
            | AxPrecedingSibling => (preceding_siblings D n, None)
            | AxFollowing => (after (fst n) (all_nodes D), None)          (* _iterate_following: every later node *)
